@@ -10,6 +10,8 @@ attribute objects; operations on a copy never reach the original) is proved in P
 import Nitime.Model.C16
 import Nitime.Props.C17
 import Nitime.Lemmas.C16Memo
+import Nitime.Lemmas.C16Copy
+import Nitime.Generated.C16CopyPath
 
 namespace Nitime.C16.Props
 open Nitime Nitime.C16
@@ -583,6 +585,136 @@ theorem handed_out_buffer_counterexample :
     Memo.run (fun k => [Int.ofNat k, 1]) false ⟨[], [], []⟩ [.call 3, .scribble 0 [9, 9], .call 3] = [[3, 1], [9, 9]] ∧
     Memo.spec (fun k => [Int.ofNat k, 1]) [.call 3, .scribble 0 [9, 9], .call 3] = [[3, 1], [3, 1]] :=
   ⟨Memo.memo_hands_out_buffer_counterexample.1, Memo.memo_hands_out_buffer_counterexample.2.1⟩
+
+/-! ## Round 2 (L7 failure paths, L8 aliasing): copy / arithmetic with the metadata as a nested container graph
+
+Model: `Model/C16Copy.lean` (heap of mutable containers; slots = immutable value / uncopyable handle / reference; `deepCopy` total
+with `Except`; `seriesCopy` / `seriesArith` for the discipline of the source (`strict`) and for the VARIANT with a handler that
+substitutes a shallow copy).  Proofs: `Lemmas/C16Copy.lean`.  Tie: `Generated/C16CopyPath.lean` (handlers and the copy path read
+off the source by `harness/translate_c16.py: gen_c16copypath`), correspondence lines `seriescopy`. -/
+
+open Generated.C16CopyPath in
+/-- functions on the copy path of a series: `copy()` and the operators that start from it -/
+def copyPathFunctions : List String :=
+  ["TimeSeries.copy", "TimeSeriesBase.copy", "TimeSeriesBase.__add__", "TimeSeriesBase.__sub__", "TimeSeriesBase.__mul__",
+   "TimeSeriesBase.__div__", "TimeSeriesBase.__truediv__", "TimeSeries.__add__", "TimeSeries.__sub__", "TimeSeries.__mul__",
+   "TimeSeries.__div__", "TimeSeries.__truediv__"]
+
+open Generated.C16CopyPath in
+/-- the discipline of the SOURCE, read off the generated table: `strict` iff the metadata of the copy can only come from
+`copy.deepcopy` and no `except` clause on the copy path completes normally -/
+def sourceDiscipline : Copy.Discipline :=
+  if copyMetadataSources == ["copy.deepcopy"] &&
+     (handlers.all fun hd => hd.reraises || !copyPathFunctions.contains hd.func) then .strict else .shallowFallback
+
+open Generated.C16CopyPath in
+/-- **the copy path has no fallback** (generated table): `TimeSeries.copy` builds `TimeSeries(data=self.data.copy(),
+time=self.time.copy(), …, metadata=copy.deepcopy(self.metadata))` — every name that can reach `metadata=` followed through every
+assignment of the function, handlers included —, each of `+ - * /` returns exactly the object made by `self.copy()`, and no handler in
+these functions swallows an exception.  A `try: … except …: metadata = copy.copy(self.metadata)` (or `dict(self.metadata)`, or
+`return self`) around any of it falsifies this. -/
+theorem copy_path_has_no_fallback :
+    parsed = true ∧ copyFound = true ∧ copyMetadataSources = ["copy.deepcopy"] ∧ copyDataSources = ["self.data.copy"] ∧
+    copyTimeSources = ["self.time.copy"] ∧ operators.length = 5 ∧
+    (operators.all fun o => o.2.1 == ["self.copy"] && o.2.2) = true ∧
+    (handlers.all fun hd => hd.reraises || !copyPathFunctions.contains hd.func) = true ∧
+    sourceDiscipline = .strict := by
+  decide +kernel
+
+/-- (module, function, exceptions) of the handlers that complete normally BY DESIGN, each reading only or producing fresh objects:
+the optional cython import (defines the python `tridisolve`), the exactly singular shift in `tridi_inverse_iteration` (a flag; it
+works on its own arrays), the numpy version probe, `get_time_unit` of a non-iterable (returns None), and `UniformTime + - r-` with a
+non-uniform operand (the result is an ordinary `TimeArray(self) ± val`: new objects) -/
+def swallowingHandlersAllowed : List (String × String × List String) :=
+  [("utils", "<module>", ["ImportError"]), ("utils", "tridi_inverse_iteration", ["ZeroDivisionError"]),
+   ("timeseries", "<module>", ["Exception"]), ("timeseries", "get_time_unit", ["TypeError"]),
+   ("timeseries", "UniformTime.__add__", ["ValueError"]), ("timeseries", "UniformTime.__sub__", ["ValueError"]),
+   ("timeseries", "UniformTime.__rsub__", ["ValueError"])]
+
+open Generated.C16CopyPath in
+/-- **no other routine swallows an exception and carries on with a substitute**: the handlers of the 18 registry files that do not
+re-raise are exactly the seven listed ones.  A new "catch and fall back" anywhere in these files re-opens this obligation. -/
+theorem swallowing_handlers_pinned :
+    ((handlers.filter fun hd => !hd.reraises).map fun hd => (hd.module, hd.func, hd.catches)) = swallowingHandlersAllowed := by
+  decide +kernel
+
+open Copy in
+/-- **copy shares nothing mutable — for EVERY outcome of the deep copy of the metadata** (discipline of the source).
+(ii) the deep copy raises (an uncopyable handle is reachable: `copy_raises_iff_handle_reachable`) ⇒ `copy()` raises and the heap is
+what it was — never a substitute; (i) it succeeds ⇒ the heap only grew (no pre-existing object modified), every container
+reachable from the copy's metadata, data and time is NEW (id ≥ old heap size), the value of the metadata graph, the data and the
+axis are equal to the operand's, and ANY in-place write to a new object — in particular to every object reachable from the copy —
+leaves every old object and the value of every old graph unchanged. -/
+theorem copy_shares_nothing_mutable (fuel : Nat) (h : Heap) (hc : Closed h) (s : GSeries)
+    (hs : s.data < h.length ∧ s.time < h.length ∧ s.info < h.length)
+    (hflat : Flat (obj h s.data) ∧ Flat (obj h s.time)) :
+    match seriesCopy sourceDiscipline fuel h s with
+    | (h', .error _) => h' = h ∧ ∃ e, deepCopy fuel h s.info = .error e
+    | (h', .ok c) =>
+        (∃ e, h' = h ++ e) ∧
+        (∀ g, ∀ j ∈ reach g h' c.info ++ reach g h' c.data ++ reach g h' c.time, h.length ≤ j) ∧
+        (∀ g, unfold g h' c.info = unfold g h s.info) ∧ obj h' c.data = obj h s.data ∧ obj h' c.time = obj h s.time ∧
+        (∀ j o, h.length ≤ j → ∀ g i, i < h.length →
+          unfold g (write h' j o) i = unfold g h i ∧ obj (write h' j o) i = obj h i) := by
+  rw [copy_path_has_no_fallback.2.2.2.2.2.2.2.2]
+  exact copy_shares_nothing_mutable_graph fuel h hc s hs hflat
+
+open Copy in
+/-- the same through `+ - * /` (`out = self.copy(); out.data = out.data.__op__(other)`), any element-wise `f`: refused — metadata
+not deep-copyable, or a shape numpy refuses AFTER the copy was made — ⇒ the heap is what it was; returned ⇒ as for `copy()` -/
+theorem series_arith_shares_nothing_mutable (fuel : Nat) (f : Int → Int → Int) (h : Heap) (hc : Closed h) (s : GSeries)
+    (other : Nat) (hs : s.data < h.length ∧ s.time < h.length ∧ s.info < h.length)
+    (hflat : Flat (obj h s.data) ∧ Flat (obj h s.time)) :
+    match seriesArith sourceDiscipline fuel f h s other with
+    | (h', .error _) => h' = h
+    | (h', .ok c) =>
+        (∃ e, h' = h ++ e) ∧
+        (∀ g, ∀ j ∈ reach g h' c.info ++ reach g h' c.data ++ reach g h' c.time, h.length ≤ j) ∧
+        (∀ g, unfold g h' c.info = unfold g h s.info) ∧ obj h' c.time = obj h s.time ∧
+        (∀ j o, h.length ≤ j → ∀ g i, i < h.length →
+          unfold g (write h' j o) i = unfold g h i ∧ obj (write h' j o) i = obj h i) := by
+  rw [copy_path_has_no_fallback.2.2.2.2.2.2.2.2]
+  exact arith_shares_nothing_mutable_graph fuel f h hc s other hs hflat
+
+open Copy in
+/-- **when `copy()` is refused**: on acyclic metadata (depth ≤ fuel) `copy()` raises `TypeError` iff an uncopyable handle (lock,
+generator, open file, object whose `__deepcopy__` raises) is reachable from the metadata — at the top level or nested at any depth —,
+and returns iff none is -/
+theorem copy_raises_iff_handle_reachable (fuel : Nat) (h : Heap) (hc : Closed h) (s : GSeries) (hs : s.info < h.length)
+    (hd : depthLE fuel h s.info = true) :
+    ((seriesCopy sourceDiscipline fuel h s).2 = .error .typeError ↔ reachesHandle fuel h s.info = true) ∧
+    ((∃ c, (seriesCopy sourceDiscipline fuel h s).2 = .ok c) ↔ reachesHandle fuel h s.info = false) := by
+  rw [copy_path_has_no_fallback.2.2.2.2.2.2.2.2]
+  exact strict_copy_raises_iff_handle fuel h hc s hs hd
+
+open Copy in
+/-- a refused `copy()` leaves the heap as it was (failure clause), and is refused exactly when the deep copy is -/
+theorem refused_copy_leaves_heap (fuel : Nat) (h : Heap) (s : GSeries) (e : Err) :
+    ((seriesCopy .strict fuel h s).2 = .error e ↔ deepCopy fuel h s.info = .error e) ∧
+    (deepCopy fuel h s.info = .error e → seriesCopy .strict fuel h s = (h, .error e)) :=
+  ⟨strict_copy_raises_iff fuel h s e, seriesCopy_strict_error fuel h s e⟩
+
+open Copy in
+/-- the fallback VARIANT (handler substitutes `copy.copy(self.metadata)` / `dict(self.metadata)`): whenever the deep copy raises it
+RETURNS a series whose metadata object holds the operand's own slots — every nested container is shared -/
+theorem fallback_variant_shares_nested (fuel : Nat) (h : Heap) (s : GSeries) (e : Err) (he : deepCopy fuel h s.info = .error e) :
+    ∃ h' c, seriesCopy .shallowFallback fuel h s = (h', .ok c) ∧ obj h' c.info = obj h s.info ∧ c.info = h.length :=
+  fallback_returns_shared_slots fuel h s e he
+
+open Copy in
+/-- … concretely: metadata `{lock, tags: [1, 2]}`.  The source refuses (heap unchanged); the variant returns a new dict that reaches
+the operand's list (object 2), and the write `c.metadata['tags'][:] = [9]` changes the value of the ORIGINAL's metadata graph -/
+theorem fallback_variant_counterexample :
+    let h : Heap := [[.val 1], [.val 0], [.val 1, .val 2], [.handle 0, .ref 2]]
+    seriesCopy .strict 5 h ⟨0, 1, 3⟩ = (h, .error .typeError) ∧
+    ∃ h' c, seriesCopy .shallowFallback 5 h ⟨0, 1, 3⟩ = (h', .ok c) ∧ 2 ∈ reach 2 h' c.info ∧ c.info ≠ 3 ∧
+      unfold 3 (write h' 2 [.val 9]) 3 ≠ unfold 3 h 3 :=
+  shallow_fallback_counterexample
+
+open Copy in
+example : (seriesCopy sourceDiscipline 4 [[.val 1], [.val 0], [.val 1, .val 2], [.val 7, .ref 2]] ⟨0, 1, 3⟩).1.length = 8 := by
+  decide +kernel
+
 
 /-! ### the unrepaired sites -/
 /-- `t[0:2] = arr` with `t` in ns multiplies the caller's array by 1000 -/
